@@ -99,6 +99,15 @@ func (g *core) render(c gengo.Context, parts []proto.Part) {
 			c.Render(snippet.Block(docComment(c, p.DocRef)))
 		case p.Results:
 			c.Render(snippet.Block(resultsComment(c)))
+		case p.Bulk > 0:
+			var sb strings.Builder
+			sb.WriteString("\n\nvar " + p.Text + " = [...]string{\n")
+			line := "\t\"" + strings.Repeat("0123456789abcdef", 6) + "\",\n"
+			for sb.Len() < p.Bulk<<10 {
+				sb.WriteString(line)
+			}
+			sb.WriteString("}\n\n")
+			c.Render(snippet.Block(sb.String()))
 		case p.Ref != "" && p.Via == "expose-shared":
 			c.Render(sharedExpose(p.Ref))
 		case p.Ref != "":
@@ -224,6 +233,12 @@ func (g *core) apply(c gengo.Context, kind string, obj *types.TypeName, rules ma
 		}
 		return errors.New(errTexts[st.seen%len(errTexts)])
 	case actGenUnparseable:
+		for _, p := range rule.Render {
+			if p.Bulk > 0 {
+				g.render(c, rule.Render) // megabytes of valid text first, then the broken declaration
+				break
+			}
+		}
 		c.Render(snippet.Block("\nfunc ( {{{ unparseable\n"))
 		return nil
 	}
